@@ -220,10 +220,10 @@ func init() {
 			"JSON: Int vs integral float considered equal (decimal text cannot distinguish them); float32 compared after rounding the parsed number to float32",
 		},
 		Suites: []*run.Suite{
-			{Name: "trees", N: tierN(60000, 3000000), Case: c01Tree, Require: []string{"roundtrips_json", "roundtrips_ubjson", "roundtrips_cborl"}},
+			{Name: "trees", N: tierN(300000, 15000000), Case: c01Tree, Require: []string{"roundtrips_json", "roundtrips_ubjson", "roundtrips_cborl"}},
 			{Name: "ints", N: tierN(16*11*3, 16*11*3), Case: c01Ints, Require: []string{"exhaustive_int_values"}},
 			{Name: "strings", N: tierN(257*3, 257*3), Case: c01Strings, Require: []string{"exhaustive_strings"}},
-			{Name: "floats", N: tierN(3000, 100000), Case: c01Floats},
+			{Name: "floats", N: tierN(20000, 500000), Case: c01Floats},
 		},
 	})
 }
